@@ -20,13 +20,14 @@ CHECKS = {
             "Complete lattice d x (1<=lmin<=lmax) x box x boundary of StandardCombi+TrapezoidalGrid; per configuration ALL nodal unit "
             "functions (reproduction at every sparse-grid point, point-wise and via interpolate_grid) and ALL hierarchical hats of the "
             "sparse-grid space (exact integral, exact off-grid interpolation, combined quadrature rule) are decided, plus point-set, "
-            "coefficient-sum and point-count equalities against a reference sparse grid.",
+            "coefficient-sum and point-count equalities against a reference sparse grid; object reuse: all pairs/triples of level ranges and "
+            "every public plot/print/export helper called between two operations on ONE object.",
             "d<=3 (thorough 4), lmax<=5/4/3; float-exact boxes; tolerance 1e-12.",
             "exhaustive configuration lattice, basis-function oracle (linearity)"),
     "C03": ("DESIGN.md 2/C03",
             "Explicit-state BFS over refinement-decision histories of the real dimension-wise strategy (scripted ErrorCalculator, "
             "real adaptive loop/refine): every state reachable by <=D steps with <=s intervals chosen per step, for all coarsening "
-            "versions, rebalancing and boundary flags; 1D-list laws, per-point coefficient sums and reproduction of all nodal unit "
+            "versions, rebalancing and boundary flags and the rarely used constructor options (dim_adaptive=False, Chebyshev points, volume weighting); 1D-list laws, per-point coefficient sums and reproduction of all nodal unit "
             "functions checked in every state.",
             "Bounds d<=3, D<=2..4, s<=2, domain [0,1]^d; canonical form = intervals+levels+coarsening, lmax, index sets.",
             "explicit-state BFS over decision histories replayed on the real objects"),
@@ -34,14 +35,14 @@ CHECKS = {
             "BFS over refinement histories of the dimension-wise, extend-split and cell strategies with a basis of the claimed "
             "exactness space carried as extra integrand components (exact integrals/interpolants compared in every state), plus "
             "complete runs with the library's own estimator on a menu of refinement-driving integrands checked at every evaluation.",
-            "Bounds d<=3, D<=2..3, s<=2; float-exact boxes; tolerance 1e-11. Known finding: rebalancing rotation loses the initial space.",
+            "Bounds d<=3, D<=2..3, s<=2; float-exact boxes; tolerance 1e-11. Known findings: rebalancing rotation and dim_adaptive=False lose the initial space.",
             "explicit-state BFS over decision histories, basis-function oracle"),
     "C05": ("DESIGN.md 2/C05",
             "Complete lattice of standard-combination configurations (d<=3, all lmin<=lmax, 6 grid families), BFS over scripted "
             "surplus rankings of the dimension-adaptive driver and BFS over refinement-decision histories of the dimension-wise and "
             "extend-split (version 0) strategies; in every state the reported value is compared with the coefficient-weighted sum "
             "over fresh grid objects, with evaluate_final_combi(), with the same history run with reevaluate_at_end=True / "
-            "recalculate_frequently=True, with solutions_storage and, at EVERY evaluation, with sum w f(p) over get_points_and_weights(); "
+            "recalculate_frequently=True, with the same history ended by its time budget (virtual clock seam), with solutions_storage and, at EVERY evaluation, with sum w f(p) over get_points_and_weights(); "
             "other grid families (high-order, Lagrange, B-spline, Romberg, Simpson) under the dimension-wise and extend-split strategies.",
             "Bounds d<=3, D<=2..3, s<=2; relative tolerance 1e-11; integrand menu carried as one vector-valued function.",
             "explicit-state BFS over decision histories + exhaustive configuration lattice, differential oracle"),
@@ -61,12 +62,13 @@ CHECKS = {
     "C08": ("DESIGN.md 2/C08",
             "Complete lattice grid family (10) x d(1,2) x level vector x dyadic sub-box (touching left/right/both/no end) of two domains; "
             "announced point numbers, containment, weight sums and every tensor monomial up to the nominal degree; trapezoid "
-            "boundary-off contract against boundary-on minus global boundary points.",
+            "boundary-off contract against boundary-on minus global boundary points; point/weight-count contract with boundary off for Simpson, "
+            "Clenshaw-Curtis, Leja; MixedGrid and per-dimension boundary flags against the per-dimension product; object reuse.",
             "levels <=4 (1D), <=2..4 (2D); nominal degrees as in the statement; known finding: level 0 one-sided boxes with boundary off.",
             "exhaustive input lattice, closed-form oracle"),
     "C09": ("DESIGN.md 2/C09",
             "Every refinement tree with leaves at depth<=4 and every Catalan tree with <=6 (thorough 8) inner points, dyadic and 1/3 "
-            "splits, two intervals, plus all 676 pairs of depth-<=3 trees in 2D; trapezoid weights compared with exact rational "
+            "splits, two intervals, plus all pairs of depth-<=3 trees in 2D (trapezoid AND every high-order / hierarchical rule, scalar and vector-valued integrands) and 3D triples; trapezoid weights compared with exact rational "
             "integrals of the piecewise-linear nodal functions, hierarchical/high-order rules with exact monomial moments; the high-order "
             "rule (with and without boundary points, modified basis, splitting) against a reference model of its moment matching; object "
             "reuse (one grid object asked repeatedly).",
@@ -89,9 +91,9 @@ CHECKS = {
     "C12": ("DESIGN.md 2/C12",
             "(a) every operation sequence of depth 4 (thorough 5) over an 11-operation alphabet (single/batch/empty/ndarray/vectorised "
             "evaluation with colliding points, cache reset, cache deactivation, counter read) on 12 real Function objects, lock-step "
-            "with a reference model (pure scalar eval + a set); (b) complete lattice of 29 built-in classes/parameterisations (incl. the "
-            "base-class numeric integral) x d<=3 x all "
-            "boxes with corners in {0,1/4,1/2,1}^d (+ boxes off the unit cube) against composite Gauss-Legendre quadrature of eval.",
+            "with a reference model (pure scalar eval + a set); (every returned array is overwritten by the harness afterwards, as a caller computing in place would); (b) complete lattice of 31 built-in classes/parameterisations (incl. the "
+            "base-class numeric integral and compositions with a discontinuous component) x d<=3 x all "
+            "boxes with corners in {0,1/4,1/2,1}^d (+ boxes off the unit cube; list, tuple and ndarray boxes) against composite Gauss-Legendre quadrature of eval.",
             "Counter only compared while caching is on; UQNormal wrappers and FunctionGeneralizedNormal excluded (see assumptions).",
             "exhaustive operation-sequence enumeration with reference model + exhaustive input lattice"),
     "C13": ("DESIGN.md 2/C13",
@@ -99,16 +101,18 @@ CHECKS = {
             "unlimited baseline, every boundary case) x strategy x integrand x norm, each a complete run of the real adaptive loop "
             "with the real estimator, compared step by step with a reference model of the loop; distinct-evaluation counter "
             "kept by the harness-side integrand.",
-            "d=2; nine strategy variants (incl. a non-nested grid family and periodic recalculation); max_time (real clock) not explored.",
+            "d=2; eleven strategy variants (incl. a non-nested grid family and periodic recalculation); two-phase runs (incl. reevaluate_at_end in the first phase); time budgets "
+            "through a virtual clock owned by the explorer (mc/clock.py).",
             "exhaustive configuration lattice, reference-model lock-step of the driver loop"),
     "C14": ("DESIGN.md 2/C14",
             "Crash-point enumeration: every evaluation index (incl. the last) of every uninterrupted run (with and without a reference "
             "solution) is used as interruption point, in four variants (continue / performSpatiallyAdaptiv(refinement_container) / "
             "save+restore+continue / save, continue original, restore and continue copy); plus BFS over scripted refinement histories "
             "of the dimension-wise, extend-split and cell strategies with EVERY split point k=0..len and three continuations; final "
-            "structure, scheme, result and point count compared with the uninterrupted run; restored instance compared with the saved one.",
-            "d=2; real and scripted estimators; dill persistence into a scratch directory. Known findings: extend-split version 2 and the "
-            "cell strategy without reference when continued through refinement_container.",
+            "structure, scheme, result and point count compared with the uninterrupted run; restored instance compared with the saved one; "
+            "hierarchical high-order local grids with and without periodic recalculation.",
+            "d=2; real and scripted estimators; dill persistence into a scratch directory. Known findings: extend-split version 2, the "
+            "cell strategy without reference and extend-split on a Lagrange grid when continued through refinement_container.",
             "exhaustive interruption-point enumeration, differential oracle against the uninterrupted run"),
     "C15": ("DESIGN.md 2/C15",
             "(a) every refinement tree with leaves at depth<=3 (thorough 4) built with the probability-halving midpoint plus tail chains, "
@@ -119,17 +123,18 @@ CHECKS = {
             "Normal on a finite box: laws hold up to the mass deficit of the box; midpoint law for intervals of mass >= 2^-10.",
             "exhaustive tree enumeration + explicit-state BFS over decision histories"),
     "C16": ("DESIGN.md 2/C16",
-            "Complete lattice of component grids (uniform level vectors d<=3; every refinement tree of depth<=3 in 1D, pairs of trees in 2D) "
+            "Complete lattice of component grids (uniform level vectors d<=3 plus level >= 2 in three/four dimensions at once; every refinement tree of depth<=3 in 1D, pairs of trees in 2D, "
+            "without and with boundary points) "
             "x lambda x mass lumping x analytic/numeric x labelling; per grid EVERY single-sample data set of a lattice containing grid "
             "lines, cell interiors and the boundary plus all two-sample sets (linearity of the right-hand side): R == exact Gram + lambda I, "
             "b == sample mean of independently evaluated hats, hat variants agree, surpluses == reference solve + normalisation, "
             "combined density == reference.",
-            "data in the unit cube; lumped form accepted with or without lambda; numeric entries 1e-9.",
+            "data in the unit cube; lumped form accepted with or without lambda; numeric entries 1e-9. Known finding: sample on the upper boundary of a grid with boundary points.",
             "exhaustive input lattice, exact reference matrices"),
     "C17": ("DESIGN.md 2/C17",
             "Lock-step exploration: every refinement-decision history (BFS, scripted estimator, real loop) and every uniform combination is "
             "executed on 6 real instances (reuse on/off x size threshold 200/0/8 via the guarded hook) plus natural-size grids (>=200 "
-            "points) without the hook, grids without and with boundary points; surpluses, scheme and interpolated densities compared with "
+            "points) without the hook, grids without and with boundary points, and parameter sweeps (sequences of problems solved with fresh objects in one process); surpluses, scheme and interpolated densities compared with "
             "the reuse-off instance.",
             "Known finding: the right-hand-side reuse branch is not transparent. Hook: GridOperation._verif_threshold.",
             "explicit-state BFS over decision histories, differential (lock-step) oracle"),
@@ -152,7 +157,7 @@ CHECKS = {
             "Complete lattice d x targets x lambda x matrix x level range (standard) / margin x max_evaluations (dimension-wise) x Opticom "
             "option with default constructor arguments; per component grid the normal equations with an independently recomputed design "
             "matrix, design matrices vs hat values, smoothing matrices vs the exact gradient Gram matrix on every level vector and on "
-            "every tree / pair of trees, Opticom coefficient sums; retraining of one object; natural-size training sets (33 000 samples).",
+            "every tree / pair of trees, Opticom coefficient sums; retraining of one object; two models alive in one process; natural-size training sets (33 000 samples).",
             "Known findings: build_C_matrix on anisotropic levels, build_C_matrix_dimension_wise in d>=2 / touching supports (values pinned by "
             "the repository tests).",
             "exhaustive configuration lattice, independent normal-equation oracle"),
